@@ -325,6 +325,8 @@ fn case(cx: &mut CaseCtx, input: Input) -> CaseResult {
     let crlf = pick(&mut u, 4) == 0;
     const NAMES: [&str; 6] = ["a.slice", "with space.slice", "quo\"te.slice", "ünï中.slice", "sub dir/b.slice", "per%cent.slice"];
     let nfiles = 1 + pick(&mut u, 3);
+    let cross_file_note = nfiles >= 2 && matches!(bundle, 0 | 1) && pick(&mut u, 3) == 0;
+    cx.label_if(cross_file_note, "note-in-another-file");
     let mut files: Vec<(String, String)> = Vec::new();
     let mut counter = 0;
     for f in 0..nfiles {
@@ -346,6 +348,14 @@ fn case(cx: &mut CaseCtx, input: Input) -> CaseResult {
                 }
                 _ => text.push_str(&format!("struct Ok{counter} {{}}\n")),
             }
+        }
+        // a diagnostic whose note points into another file: an operation that shadows one inherited
+        // from an interface of the first file
+        if cross_file_note && f == 0 {
+            text.push_str("interface Base0 {\n    op() // é\n}\n");
+        }
+        if cross_file_note && f == nfiles - 1 && f > 0 {
+            text.push_str(&format!("interface Derived{f} : M0::Base0 {{\n\t op()\n}}\n"));
         }
         if bundle == 4 {
             // one syntax error per file: unterminated body -> zero-width span at the end of input
@@ -443,6 +453,10 @@ fn case(cx: &mut CaseCtx, input: Input) -> CaseResult {
     cx.label_if(expected.iter().any(|e| e.notes.is_empty()), "note-less-diagnostic");
     cx.label_if(expected.iter().any(|e| e.notes.iter().any(|n| n.1.is_none())), "note-without-span");
     cx.label_if(expected.iter().any(|e| e.notes.iter().any(|n| n.1.is_some())), "note-with-span");
+    cx.label_if(
+        expected.iter().any(|e| e.level != "allowed" && e.notes.iter().any(|n| matches!((&n.1, &e.span), (Some(ns), Some(ds)) if ns.4 != ds.4))),
+        "note-span-in-another-file",
+    );
     cx.label_if(expected.iter().any(|e| e.span.as_ref().map(|s| s.2 > s.0).unwrap_or(false)), "multi-line-span");
     cx.label_if(expected.iter().any(|e| e.span.as_ref().map(|s| (s.0, s.1) == (s.2, s.3)).unwrap_or(false)), "zero-width-span");
     cx.label_if(expected.iter().any(|e| e.span.as_ref().map(|s| !s.4.is_ascii()).unwrap_or(false)), "non-ascii-file-name");
@@ -606,6 +620,7 @@ impl Check for C14 {
             "note-less-diagnostic",
             "note-without-span",
             "note-with-span",
+            "note-span-in-another-file",
             "multi-line-span",
             "zero-width-span",
             "non-ascii-file-name",
